@@ -33,6 +33,7 @@ META = dict(
 )
 META["text"] += ' R2 also: every reader of the format stores tokens verbatim (a case-folded token may be compared, not stored); grouping records with itertools.groupby on unsorted input is refuted.'
 META["text"] += ' R1 also: the ballot predicates keep no state between calls.'
+META["text"] += ' R5 also: the assorter mean is over the cards that carry the contest (= C02.R5).'
 
 
 def run(chk):
